@@ -328,11 +328,11 @@ func Main(args []string) int {
 			}
 		}
 	}
-	// F4: the escape grammar: every string up to length 4 (thorough 5) over {a \ n t x 2-byte-rune}, flagged or not
+	// F4: the escape grammar: every string up to length 4 (thorough 7) over {a \ n t x 2-byte-rune}, flagged or not
 	syms := []string{"a", "\\", "n", "t", "x", "\xc3\xa9"}
 	maxL := 4
 	if thorough {
-		maxL = 5
+		maxL = 7
 	}
 	un := mk(config{schema: []string{"f1", "f2", "f3"}, env: []string{"f2"}, rewrite: map[string][]chainItem{"f3": chains["unescape"]}})
 	iu := mk(config{schema: []string{"f1", "f2", "f3"}, env: []string{"f2"}, rewrite: map[string][]chainItem{"f3": chains["in+un"]}})
